@@ -130,7 +130,7 @@ class Analysis:
     SIZE_OF = {"u8": 1, "i8": 1, "u16": 2, "i16": 2, "u32": 4, "i32": 4, "u64": 8, "i64": 8, "u128": 16, "i128": 16,
                "usize": 8, "isize": 8, "bool": 1}
 
-    def __init__(self, view, arg_intervals=None, summaries=None, ret_len=None, ret_discr=None, forced=None,
+    def __init__(self, view, arg_intervals=None, summaries=None, ret_len=None, ret_discr=None, forced=None, arg_plimbs=None,
                  ret_interval=None, canonical_args=False, ret_paths=None):
         self.v = view
         self.ret_paths = ret_paths  # callback: (callee key, call terminator, analysis, state) -> {field path: interval} of a returned tuple
@@ -147,6 +147,7 @@ class Analysis:
         self.forced = forced or {}  # block -> the only successor to follow (assumption injected by a rule)
         self.ret_len = ret_len     # callback: (callee key, call terminator, analysis) -> interval of returned slice length
         self.arg_intervals = arg_intervals or {}
+        self.arg_plimbs = arg_plimbs or {}   # immutable Uint parameter -> {limb index: interval} known at the call site
         self.nl = view.nlocals
         self.rng = []
         self.arrlen = {}
@@ -1801,6 +1802,16 @@ class Analysis:
                     if o.get("o") in ("copy", "move"):
                         deps.setdefault(o["l"], []).append((bi, kind, s_))
             t = blk["term"]
+            if t["t"] == "call" and not t["dest"]["p"] and self.ret_interval is not None \
+                    and ir.callee_name(t["fn"]) in v.prog.bodies and self.rng[t["dest"]["l"]] is not None \
+                    and self._stable_local(t["dest"]["l"]) and all(stable_operand(o) for o in t["args"]):
+                # a call of a local function returning an integer: its contextual summary can be re-evaluated
+                for o in t["args"]:
+                    if o.get("o") in ("copy", "move"):
+                        deps.setdefault(o["l"], []).append((bi, "call", t))
+                        ua_ = self.uint_arg_of(o["l"]) if not o["p"] else None
+                        if ua_ is not None and ua_ != o["l"]:
+                            deps.setdefault(ua_, []).append((bi, "call", t))
             if t["t"] == "call" and not t["dest"]["p"]:
                 name = ir.callee_name(t["fn"])
                 d = t["dest"]["l"]
@@ -1823,6 +1834,8 @@ class Analysis:
         for k, iv in st.iv.items():
             if before.iv.get(k) != iv:
                 r = key_root(k)
+                if r is None and isinstance(k, tuple) and k[0] == "plimb":
+                    r = k[1]
                 if isinstance(r, int) and r in deps and r not in work:
                     work.append(r)
         doms = self.v.dom.get(at_block, ())
@@ -1838,7 +1851,13 @@ class Analysis:
                     if d in deps and d not in work:
                         work.append(d)
                     continue
-                if kind == "index":
+                if kind == "call":
+                    d = s_["dest"]["l"]
+                    new = self.ret_interval(ir.callee_name(s_["fn"]), s_, self, st)
+                    if new is None:
+                        continue
+                    key = d
+                elif kind == "index":
                     d = s_["dest"]["l"]
                     if self.pointee_ty(d) is None or self.pointee_ty(d)["k"] != "slice" or d in st.alias:
                         continue
@@ -2280,6 +2299,10 @@ class Analysis:
         st0 = State()
         for l, iv in self.arg_intervals.items():
             st0.iv[l] = iv
+        for l, limbs_ in self.arg_plimbs.items():
+            if l in self._immut_uint_args():
+                for k_, iv in limbs_.items():
+                    st0.iv[("plimb", l, k_)] = iv
         for l, (n, erng) in self.arrlen.items():
             if v.is_arg(l) and l not in self.escaped:
                 st0.arr[l] = [erng] * n
